@@ -133,8 +133,9 @@ def correspondence(ctx):
             ctx.sample({"rows": rows, "refs": refs, "complex": cplx, "scales_setup0": s[0].tolist()})
 
 
-def _poser_with_stub_results(ctx, rows, refs, phis, fns, xis):
-    """a real MultiSetup_PoSER over real SingleSetup objects whose algorithms carry prescribed results"""
+def _poser_with_stub_results(ctx, rows, refs, groups):
+    """a real MultiSetup_PoSER over real SingleSetup objects whose algorithms carry prescribed results;
+    groups = list of (phis, fns, xis), one per algorithm of every setup"""
     from pyoma2.algorithms import FDD
     from pyoma2.algorithms.data.result import EFDDResult
     from pyoma2.setup import MultiSetup_PoSER, SingleSetup
@@ -142,12 +143,17 @@ def _poser_with_stub_results(ctx, rows, refs, phis, fns, xis):
     setups = []
     for i, chan in enumerate(rows):
         ss = SingleSetup(ctx.nprng().standard_normal((32, max(len(chan), 1))), fs=10.0)
-        alg = FDD(name=f"a{i}", nxseg=16)
-        ss.add_algorithms(alg)
-        alg.result = EFDDResult(Fn=np.array(fns[i]), Xi=np.array(xis[i]), Phi=np.array(phis[i]))
+        algs = []
+        for gi, (phis, fns, xis) in enumerate(groups):
+            alg = FDD(name=f"a{i}_{gi}", nxseg=16)
+            algs.append(alg)
+        ss.add_algorithms(*algs)
+        for alg, (phis, fns, xis) in zip(algs, groups):
+            alg.result = EFDDResult(Fn=np.array(fns[i]), Xi=np.array(xis[i]), Phi=np.array(phis[i]))
         setups.append(ss)
-    ms = MultiSetup_PoSER(ref_ind=[list(r) for r in refs], single_setups=setups, names=["grp"])
-    return ms.merge_results()["grp"]
+    names = [f"grp{gi}" for gi in range(len(groups))]
+    ms = MultiSetup_PoSER(ref_ind=[list(r) for r in refs], single_setups=setups, names=names)
+    return ms.merge_results(), names
 
 
 def oracle(ctx, scale):
@@ -172,9 +178,24 @@ def oracle(ctx, scale):
         fns = xis = None
         if through_class:
             nm = G.shape[1]
-            fns = g.uniform(1, 20, size=(nset, nm))
-            xis = g.uniform(0.005, 0.05, size=(nset, nm))
-            res = _poser_with_stub_results(ctx, rows, refs, phis, fns, xis)
+            ngroups = rng.randint(1, 3)
+            groups = []
+            for gi in range(ngroups):
+                sg = s if gi == 0 else np.exp(g.uniform(np.log(0.05), np.log(20), size=s.shape)) * g.choice([-1.0, 1.0], size=s.shape)
+                groups.append(([np.array(G[rows[i], :] * sg[i][None, :]) for i in range(nset)], g.uniform(1, 20, size=(nset, nm)), g.uniform(0.005, 0.05, size=(nset, nm)), sg))
+            allres, names = _poser_with_stub_results(ctx, rows, refs, [(a, b, c) for (a, b, c, _d) in groups])
+            ctx.oracle_cases += 1
+            if sorted(allres.keys()) != sorted(names):
+                ctx.violation("poser-groups-missing", f"merge_results returned groups {sorted(allres.keys())}, expected one merged result per algorithm name {names}",
+                              {"rows": rows, "refs": refs, "n_algorithms": ngroups})
+                return
+            for gi in range(1, ngroups):
+                exp_g = G[order, :] * groups[gi][3][0][None, :]
+                if max_rel_err(allres[names[gi]].Phi, exp_g) > 1e-9:
+                    ctx.violation("merge-scale-group", f"algorithm group {gi}: merged mode shape differs from s0*G[order]", {"rows": rows, "refs": refs, "n_algorithms": ngroups})
+                    return
+            res = allres[names[0]]
+            fns, xis = groups[0][1], groups[0][2]
             merged = res.Phi
         else:
             merged = gen.merge_mode_shapes(MSarr_list=[p.copy() for p in phis], reflist=[list(r) for r in refs])
